@@ -116,7 +116,7 @@ pub fn tokenize(s: &str) -> Vec<Tok> {
 }
 
 /// assignments of the supported notation with `{n}` as a unique suffix
-pub const ASSIGNMENTS: [&str; 15] = [
+pub const ASSIGNMENTS: [&str; 16] = [
     "A{n} ::= INTEGER (0..255)",
     "B{n} ::= SEQUENCE {\n    a INTEGER,\n    b BOOLEAN OPTIONAL,\n    ...\n}",
     "C{n} ::= CHOICE { x NULL, y [1] UTF8String }",
@@ -131,6 +131,8 @@ pub const ASSIGNMENTS: [&str; 15] = [
     "N{n} ::= INTEGER { one(1), two(2) } (1..2)",
     "s{n} UTF8String ::= \"abc\"",
     "R{n} ::= SEQUENCE OF SEQUENCE { k INTEGER (0..7), l NULL }",
+    // a name that begins like the END of the module
+    "ENDpoint{n} ::= BOOLEAN",
     // a long definition: more than 600 characters of indented lines before the next definition starts
     "G{n} ::= SEQUENCE {\n    m00 [0] INTEGER (0..100) OPTIONAL,\n    m01 [1] INTEGER (0..101) OPTIONAL,\n    m02 [2] INTEGER (0..102) OPTIONAL,\n    m03 [3] INTEGER (0..103) OPTIONAL,\n    m04 [4] INTEGER (0..104) OPTIONAL,\n    m05 [5] INTEGER (0..105) OPTIONAL,\n    m06 [6] INTEGER (0..106) OPTIONAL,\n    m07 [7] INTEGER (0..107) OPTIONAL,\n    m08 [8] INTEGER (0..108) OPTIONAL,\n    m09 [9] INTEGER (0..109) OPTIONAL,\n    m10 [10] INTEGER (0..110) OPTIONAL,\n    m11 [11] INTEGER (0..111) OPTIONAL,\n    m12 [12] INTEGER (0..112) OPTIONAL,\n    m13 [13] INTEGER (0..113) OPTIONAL,\n    m14 [14] INTEGER (0..114) OPTIONAL,\n    m15 [15] INTEGER (0..115) OPTIONAL,\n    m16 [16] INTEGER (0..116) OPTIONAL,\n    m17 [17] INTEGER (0..117) OPTIONAL,\n    last BOOLEAN\n}",
 ];
